@@ -536,8 +536,10 @@ func (fc *funcContext) varPtrName(o *types.Var) string {
 	// If name already exists for the package, check that the function's instantiation
 	// also has the name in its localVars. This is to handle generics where `o` is
 	// shared among multiple instantiations of the same generic, but `newVariable`
-	// is only called for the first.
-	if !fc.instance.IsTrivial() && !containsString(fc.localVars, name) {
+	// is only called for the first. The function may be a function literal inside
+	// the generic function. The pointer to a package-level variable is declared at
+	// package level, once for all functions.
+	if !isPkgLevel(o) && !containsString(fc.localVars, name) {
 		fc.localVars = append(fc.localVars, name)
 	}
 	return name
